@@ -5,21 +5,37 @@ statements are in `Props/C15.lean`).
 import KrillModel.Ta.Invariant
 namespace KM.Ta
 
-/-- The one operator action that can still set the number back is excluded here (it is the
-subject of the counter-example in `Props/C15.lean`, recorded as open finding F-C15-2): taking a
-signer into use whose manifest number is behind the one the proxy already publishes – a signer
-initialised again with the same TA key and a too low initial number.  (A forced manifest number
-that does not exceed the signer's current one and a signer update while a request is open are
-refused by the code since 109701d8 / 764cd480, so they need no exclusion any more.)  The first
-association (`addSigner`, possible once per proxy) is assumed to happen while no signer request
-is open, as in every documented set-up. -/
-def benign (s : Sys) : Op → Bool
+/-- Standing assumption on histories: the first association of the proxy with a signer
+(`addSigner`, possible once per proxy) happens while no signer request is open, as in every
+documented set-up.  Nothing else is assumed about a history. -/
+def regular (s : Sys) : Op → Bool
   | .addSigner _ => s.proxy.openNonce.isNone
+  | _ => true
+
+/-- The recorded exception F-C15-2, as a guard on single steps: the proxy is re-associated
+(`UpdateSigner`) with a signer whose manifest number is behind the one the proxy publishes – a
+signer initialised again with the same TA key and a too low initial number. -/
+def lowReassociation (s : Sys) : Op → Bool
   | .updateSigner id =>
     match s.proxy.number, aget s.signers id with
-    | some a, some t => decide (a ≤ t.objects.number)
-    | _, _ => true
-  | _ => true
+    | some a, some t => decide (t.objects.number < a)
+    | _, _ => false
+  | _ => false
+
+/-- Regular and not the recorded exception.  (A forced manifest number that does not exceed the
+signer's current one and a signer update while a request is open are refused by the code since
+109701d8 / 764cd480, so they need no exclusion.) -/
+def benign (s : Sys) (o : Op) : Bool := regular s o && !lowReassociation s o
+
+theorem benign_regular (s : Sys) (o : Op) (h : benign s o = true) : regular s o = true := by
+  simp only [benign, Bool.and_eq_true] at h; exact h.1
+
+theorem benign_update (s : Sys) (id : Key) (a : Nat) (t : Signer)
+    (h : benign s (.updateSigner id) = true) (h1 : s.proxy.number = some a)
+    (h2 : aget s.signers id = some t) : a ≤ t.objects.number := by
+  simp only [benign, regular, lowReassociation, h1, h2, Bool.true_and, Bool.not_eq_true',
+    decide_eq_false_iff_not, Nat.not_lt] at h
+  exact h
 
 def numLe : Option Nat → Option Nat → Bool
   | none, _ => true
@@ -73,7 +89,7 @@ theorem exec_addChild_frame (p : Proxy) (c : Child) (res : List Nat) :
     · cases hp; exact ⟨rfl, rfl⟩
 
 theorem numInv_step (s : Sys) (o : Op) (hi : Inv s) (h : NumInv s)
-    (ha : admissible s o = true) (hb : benign s o = true) : NumInv (step s o) := by
+    (ha : admissible s o = true) (hb : regular s o = true) : NumInv (step s o) := by
   cases o with
   | addChild c res =>
     simp only [step]
@@ -140,7 +156,7 @@ theorem numInv_step (s : Sys) (o : Op) (hi : Inv s) (h : NumInv s)
     | some t =>
       simp only
       have hopen : s.proxy.openNonce = none := by
-        simpa [benign] using hb
+        simpa [regular] using hb
       cases hp : process s.proxy (.addSigner t.info) with
       | error e => rw [exec_error _ _ _ hp]; exact h
       | ok evs =>
@@ -335,8 +351,8 @@ theorem number_step (s : Sys) (o : Op) (hi : Inv s) (h : NumInv s)
           · rename_i s0 hs0
             split at hp
             · cases hp
-              simp only [benign, ht, Proxy.number, hs0, Option.map_some, decide_eq_true_eq] at hb
-              simp [applyAll, apply, Proxy.number, hs0, numLe, Signer.info, hb]
+              have hle := benign_update s id s0.objects.number t hb (by simp [Proxy.number, hs0]) ht
+              simp [applyAll, apply, Proxy.number, hs0, numLe, Signer.info, hle]
             · cases hp
           · cases hp
   | sign id m ovr =>
@@ -389,5 +405,61 @@ theorem number_accept (s : Sys) (m : Signed RespBody) (evs : List Ev) (hi : Inv 
   simp only [applyAll, List.foldl, apply, Proxy.number, m2, hsig, Option.map_some, numLt,
     decide_eq_true_eq]
   exact this
+
+/-- One step of a regular history: the published number does not decrease, or the step is the
+recorded exception. -/
+theorem number_step_or (s : Sys) (o : Op) (hi : Inv s) (h : NumInv s)
+    (ha : admissible s o = true) (hr : regular s o = true) :
+    numLe s.proxy.number (step s o).proxy.number = true ∨ lowReassociation s o = true := by
+  cases hl : lowReassociation s o with
+  | true => exact Or.inr rfl
+  | false =>
+    left
+    apply number_step s o hi h ha
+    simp [benign, hr, hl]
+
+/-- The exception really is one: an accepted re-association with a signer that is behind lowers
+the published number strictly. -/
+theorem low_reassociation_decreases (s : Sys) (id : Key) (t : Signer) (evs : List Ev)
+    (ht : aget s.signers id = some t) (hl : lowReassociation s (.updateSigner id) = true)
+    (hp : process s.proxy (.updateSigner t.info) = .ok evs) :
+    numLt (step s (.updateSigner id)).proxy.number s.proxy.number = true := by
+  simp only [step, ht]
+  rw [exec_ok _ _ _ hp]
+  simp only [process] at hp
+  split at hp
+  · cases hp
+  · split at hp
+    · rename_i s0 hs0
+      split at hp
+      · cases hp
+        simp only [lowReassociation, Proxy.number, hs0, Option.map_some, ht, decide_eq_true_eq] at hl
+        simp [applyAll, apply, Proxy.number, hs0, numLt, Signer.info, hl]
+      · cases hp
+    · cases hp
+
+theorem inv_runWith' (ok : Sys → Op → Bool) (s s' : Sys) (ops : List Op) (hi : Inv s)
+    (hr : runWith ok s ops = some s') : Inv s' := by
+  induction ops generalizing s with
+  | nil => simp only [runWith, Option.some.injEq] at hr; subst hr; exact hi
+  | cons o t ih =>
+    simp only [runWith] at hr
+    split at hr
+    · rename_i hab
+      simp only [Bool.and_eq_true] at hab
+      exact ih (step s o) (inv_step s o hi hab.1) hr
+    · cases hr
+
+theorem numInv_regular (s s' : Sys) (ops : List Op) (hi : Inv s) (hn : NumInv s)
+    (hr : runWith regular s ops = some s') : NumInv s' := by
+  induction ops generalizing s with
+  | nil => simp only [runWith, Option.some.injEq] at hr; subst hr; exact hn
+  | cons o t ih =>
+    simp only [runWith] at hr
+    split at hr
+    · rename_i hab
+      simp only [Bool.and_eq_true] at hab
+      exact ih (step s o) (inv_step s o hi hab.1) (numInv_step s o hi hn hab.1 hab.2) hr
+    · cases hr
 
 end KM.Ta
